@@ -11,5 +11,6 @@ name=$(basename "$t" .rs)
 cp "$t" "$scratch/src_copy/tests/$name.rs"
 cd "$scratch/src_copy" || exit 2
 export RUST_BACKTRACE=0 CARGO_TARGET_DIR="$scratch/target" CARGO_NET_OFFLINE=true RUSTFLAGS="--cfg cablehead_xs_verif"
+if [ -n "${VX_NO_RUN:-}" ]; then timeout 2400 cargo test --offline --test "$name" --no-run 2>&1 | tail -3; exit ${PIPESTATUS[0]}; fi
 timeout 1800 cargo test --offline --test "$name" -- ${VX_TEST_FILTER:-} --nocapture --test-threads 1 2>&1 | tail -${VX_TAIL:-400}
 exit ${PIPESTATUS[0]}
